@@ -40,6 +40,7 @@ __attribute__((noinline)) static uint32_t default_init_tag() {
 }
 int main(int argc, char **argv) {
   sim::process_init();
+  sim::set_op_namer(simw::op_name);
   std::string check = "C10", tier = "quick", replay, runs;
   uint64_t seed = 1;
   long dump = -1;
